@@ -218,6 +218,18 @@ def _worker_batch(args):
     return agg
 
 
+def _worker_digests(cases):
+    """event-log digests of explicit cases, computed in a 'dirty' worker that
+    has already executed many other runs (cross-run leakage shows up here)"""
+    out = []
+    for case in cases:
+        try:
+            out.append(_guarded_execute(_WORKER_CHECK, case, -1).digest)
+        except Exception as e:  # noqa
+            out.append("error:" + type(e).__name__)
+    return out
+
+
 def _worker_cases(args):
     """Execute explicit cases (fixed schemas, sweeps)."""
     cases, base_index, keep_samples = args
@@ -534,6 +546,8 @@ def determinism_selftest(check: Check, check_name, tier, verif_seed, n_seeds,
         "executions_per_seed": 3,
         "mismatch_same_process": mism[:5],
         "mismatch_fresh_interpreter_other_hashseed": mism3[:5],
+        "_cases": cases,
+        "_digests": first,
     }
 
 
@@ -573,12 +587,14 @@ def drive(check_name, tier, verif_seed, budget_s=None, max_runs=None,
     agg = Aggregate()
     # determinism self-test first (cheap, in the main process)
     if selftest_seeds is None:
-        selftest_seeds = 8 if tier == "quick" else 64
+        selftest_seeds = 16 if tier == "quick" else 128
     selftest = {"seeds": 0, "agree": 0}
     if selftest_seeds:
         selftest = determinism_selftest(check, check_name, tier, verif_seed,
                                         selftest_seeds)
         if selftest["agree"] != selftest["seeds"]:
+            selftest.pop("_cases", None)
+            selftest.pop("_digests", None)
             print(f"HARNESS-ERROR property={check.prop} determinism self-test "
                   f"failed: {selftest}")
             return EXIT_HARNESS
@@ -633,6 +649,31 @@ def drive(check_name, tier, verif_seed, budget_s=None, max_runs=None,
             print(f"HARNESS-ERROR property={check.prop} worker failure: "
                   f"{dead_worker}")
             return EXIT_HARNESS
+        # 4th execution of the self-test cases: in the pool's workers, which
+        # have by now executed many other runs (and at another worker count
+        # than the in-process executions)
+        if selftest.get("_cases"):
+            cases, want = selftest.pop("_cases"), selftest.pop("_digests")
+            per = max(1, len(cases) // workers + 1)
+            futs = [(k, pool.submit(_worker_digests, cases[k:k + per]))
+                    for k in range(0, len(cases), per)]
+            dirty = []
+            for k, f in futs:
+                try:
+                    got = f.result(timeout=900)
+                except Exception as e:  # noqa
+                    got = ["error:" + repr(e)] * per
+                for j, d in enumerate(got):
+                    if k + j < len(want) and d != want[k + j]:
+                        dirty.append(k + j)
+            selftest["executions_per_seed"] = 4
+            selftest["mismatch_in_used_pool_worker"] = dirty[:5]
+            if dirty:
+                selftest["agree"] = selftest["agree"] - len(dirty)
+                print(f"HARNESS-ERROR property={check.prop} determinism "
+                      f"self-test failed in used pool workers (state leaks "
+                      f"from one run into the next): seeds {dirty[:5]}")
+                return EXIT_HARNESS
 
     if agg.harness_errors:
         for e in agg.harness_errors[:5]:
